@@ -81,3 +81,40 @@ theorem length_filter_ne {A : Type} : ∀ (l : List (Nat × A)) (id : Nat) (a : 
       rw [h1]; simp only [List.length_cons]; omega
 
 end Pox.BufPool
+
+namespace Pox.BufPool
+variable {F : Type}
+
+theorem firstFree_none_iff : ∀ (l : List (Option F)), firstFree l = none ↔ (l.filter Option.isSome).length = l.length
+  | [] => by simp [firstFree]
+  | none :: r => by
+    simp only [firstFree, List.filter_cons, Option.isSome_none, Bool.false_eq_true, if_false, List.length_cons]
+    constructor
+    · intro h; cases h
+    · intro h; have := List.length_filter_le Option.isSome r; omega
+  | some a :: r => by
+    simp only [firstFree, Option.map_eq_none_iff, List.filter_cons, Option.isSome_some, if_true, List.length_cons]
+    rw [firstFree_none_iff r]; omega
+
+/-- the pool hands out no id exactly when `max` packets are stored -/
+theorem alloc_none_iff (p : Pool F) (f : F) (hb : p.slots.length ≤ p.max) : (alloc p f).2 = none ↔ stored p = p.max := by
+  have hle := stored_le p
+  constructor
+  · intro h
+    obtain ⟨-, hge, hall⟩ := alloc_none p f h
+    have : firstFree p.slots = none := by
+      unfold alloc at h
+      cases hff : firstFree p.slots with
+      | none => rfl
+      | some i => simp [hff] at h
+    have := (firstFree_none_iff p.slots).mp this
+    unfold stored; omega
+  · intro h
+    have hfull : (p.slots.filter Option.isSome).length = p.slots.length := by unfold stored at h hle; omega
+    have hff := (firstFree_none_iff p.slots).mpr hfull
+    unfold alloc
+    rw [hff]
+    have : p.slots.length ≥ p.max := by unfold stored at h; omega
+    simp [this]
+
+end Pox.BufPool
